@@ -258,7 +258,7 @@ func c19Header(r *ev.Run) int {
 	n := 0
 	full := []byte{4, 14, 0x12, 0x34, 0xde, 0xad, 0xbe, 0xef, 1, 2, 3, 4}
 	for l := 0; l <= len(full); l++ {
-		for _, mode := range []string{"fresh", "advanced", "sliced"} {
+		for _, mode := range []string{"fresh", "advanced", "sliced", "skipped-past-the-end", "sliced-and-skipped-past-the-end"} {
 			n++
 			rep := map[string]any{"len": l, "mode": mode}
 			func() {
@@ -278,10 +278,21 @@ func c19Header(r *ev.Run) int {
 					p := ofbase.NewDecoder(append([]byte{9, 9, 9, 9, 9}, append(append([]byte{}, full[:l]...), 7, 7)...))
 					p.Skip(5)
 					d = p.SliceDecoder(l, 0)
+				case "skipped-past-the-end":
+					// a length field that promised more than there is: Skip is unchecked, the decoder
+					// stands l+1 bytes behind its end (fewer than 8 bytes left, by any count)
+					d = ofbase.NewDecoder(append([]byte{}, full[:l]...))
+					d.Skip(l + 1 + l%3)
+				case "sliced-and-skipped-past-the-end":
+					p := ofbase.NewDecoder(append(append([]byte{9, 9, 9}, full[:l]...), full...))
+					p.Skip(3)
+					d = p.SliceDecoder(l, 0)
+					d.Skip(l + 2)
 				}
+				short := l < 8 || mode == "skipped-past-the-end" || mode == "sliced-and-skipped-past-the-end"
 				var h ofbase.Header
 				err := h.Decode(d)
-				if l < 8 {
+				if short {
 					if err == nil {
 						r.Violation("header-short-no-error:"+mode, fmt.Sprintf("Header.Decode accepted %d bytes", l), rep)
 					}
